@@ -175,52 +175,57 @@ Definition std_hash (key : bytes) : N := std_hash_from 5381 key.
 Definition ser_rec (kv : bytes * bytes) : bytes :=
   le32 (N.of_nat (length (fst kv))) ++ le32 (N.of_nat (length (snd kv))) ++ fst kv ++ snd kv.
 
-(** (hash, position) of every record, first record at [pos] *)
-Fixpoint rec_entries (pos : N) (recs : list (bytes * bytes)) : list (N * N) :=
+(** position of every record, the first one at [pos] *)
+Fixpoint rec_positions (pos : N) (recs : list (bytes * bytes)) : list N :=
   match recs with
   | [] => []
-  | kv :: r => (std_hash (fst kv), pos) :: rec_entries (pos + N.of_nat (length (ser_rec kv))) r
+  | kv :: r => pos :: rec_positions (pos + N.of_nat (length (ser_rec kv))) r
   end.
 
-Definition slot := option (N * N).      (* None = empty (0, 0) *)
+(** a slot of a hash table: empty, or the index of a record *)
+Definition islot := option nat.
 
 Definition set_nth {A} (l : list A) (i : nat) (x : A) : list A := firstn i l ++ x :: skipn (S i) l.
 
-(** linear probing: the first empty slot at start, start+1, ... (cyclically); at most [fuel] probes *)
-Fixpoint probe_empty (tbl : list slot) (fuel : nat) (s : nat) : option nat :=
+(** the successor of slot [s] in a table of [n] slots: if (++h2 == lenhash) h2 = 0 *)
+Definition nxt (n s : nat) : nat := if (S s =? n)%nat then O else S s.
+
+(** linear probing: the first empty slot at s, nxt s, ...; at most [fuel] probes *)
+Fixpoint probe_empty (tbl : list islot) (fuel : nat) (s : nat) : option nat :=
   match fuel with
   | O => None
   | S fuel' =>
       match nth s tbl None with
       | None => Some s
-      | Some _ => probe_empty tbl fuel' (if (S s =? length tbl)%nat then O else S s)
+      | Some _ => probe_empty tbl fuel' (nxt (length tbl) s)
       end
   end.
 
-Definition tbl_insert (tbl : list slot) (e : N * N) : list slot :=
-  let n := length tbl in
-  match probe_empty tbl n (N.to_nat ((fst e / 256) mod N.of_nat n)) with
-  | Some s => set_nth tbl s (Some e)
+(** (h >> 8) % n *)
+Definition start_slot (h : N) (n : nat) : nat := N.to_nat ((h / 256) mod N.of_nat n).
+
+Definition tbl_insert (hs : list N) (tbl : list islot) (i : nat) : list islot :=
+  match probe_empty tbl (length tbl) (start_slot (nth i hs 0) (length tbl)) with
+  | Some s => set_nth tbl s (Some i)
   | None => tbl
   end.
 
-Definition in_table (t : N) (e : N * N) : bool := fst e mod 256 =? t.
+(** the records of table t (h & 255 == t), in the order of the file *)
+Definition table_members (t : N) (hs : list N) : list nat :=
+  filter (fun i => nth i hs 0 mod 256 =? t) (seq 0 (length hs)).
 
-Definition make_table (t : N) (ents : list (N * N)) : list slot :=
-  let mine := filter (in_table t) ents in
-  fold_left tbl_insert mine (repeat None (2 * length mine)).
+Definition make_table (hs : list N) (t : N) : list islot :=
+  let mine := table_members t hs in
+  fold_left (tbl_insert hs) mine (repeat None (2 * length mine)).
 
-Definition ser_slot (s : slot) : bytes :=
+Definition ser_islot (hs ps : list N) (s : islot) : bytes :=
   match s with
   | None => le32 0 ++ le32 0
-  | Some (h, p) => le32 h ++ le32 p
+  | Some i => le32 (nth i hs 0) ++ le32 (nth i ps 0)
   end.
 
-Definition tables (ents : list (N * N)) : list (list slot) :=
-  map (fun t => make_table (N.of_nat t) ents) (seq 0 256).
-
 (** header entries: position and slot count of every table, the first table at [pos] *)
-Fixpoint header (pos : N) (tbls : list (list slot)) : bytes :=
+Fixpoint header (pos : N) (tbls : list (list islot)) : bytes :=
   match tbls with
   | [] => []
   | t :: r => le32 pos ++ le32 (N.of_nat (length t)) ++ header (pos + 8 * N.of_nat (length t)) r
@@ -228,6 +233,7 @@ Fixpoint header (pos : N) (tbls : list (list slot)) : bytes :=
 
 Definition cdb_make (recs : list (bytes * bytes)) : bytes :=
   let body := concat (map ser_rec recs) in
-  let ents := rec_entries 2048 recs in
-  let tbls := tables ents in
-  header (2048 + N.of_nat (length body)) tbls ++ body ++ concat (map (fun t => concat (map ser_slot t)) tbls).
+  let hs := map (fun kv => std_hash (fst kv)) recs in
+  let ps := rec_positions 2048 recs in
+  let tbls := map (fun t => make_table hs (N.of_nat t)) (seq 0 256) in
+  header (2048 + N.of_nat (length body)) tbls ++ body ++ concat (map (fun t => concat (map (ser_islot hs ps) t)) tbls).
